@@ -924,6 +924,7 @@ pub fn judge_glr_history(p: &Prepared, hist: &[String], rep: &mut Rep, prop: &st
     crate::rep::watchdog::set(|| case(hist.len(), json!(null)).to_string());
     let mut fresh: Vec<Option<String>> = vec![];
     for input in hist {
+        crate::rep::watchdog::touch();
         dynp::set_step_limit(STEP_BUDGET);
         fresh.push(guarded(|| summary(dyg.glr_parse(input))).ok());
     }
@@ -937,6 +938,7 @@ pub fn judge_glr_history(p: &Prepared, hist: &[String], rep: &mut Rep, prop: &st
     let r = guarded(|| {
         dyg.glr_session(|parse| {
             for (k, input) in hist.iter().enumerate() {
+                crate::rep::watchdog::touch();
                 dynp::set_step_limit(STEP_BUDGET);
                 let got = summary(parse(input));
                 done = k + 1;
@@ -1053,11 +1055,13 @@ pub fn run_grammar(g: &AG, name: &str, wd: &Workdir, rep: &mut Rep, prop: &str, 
     if prop == "C07" || prop == "C03" {
         // one GLR parser object over a history of these inputs (sentences and non-sentences interleaved)
         let mut hist: Vec<String> = vec![];
-        for _ in 0..24 {
+        // ambiguous grammars (C03): GLR cost grows fast with the input, and only grammars in C03's scope are of interest
+        let rounds = if prop == "C03" { if p.glr_scope { 12 } else { 0 } } else { 24 };
+        for _ in 0..rounds {
             let budget = rng.range(0, l + 6);
             if let Some(mut w) = random_sentence(g, rng, budget) {
                 // ambiguous grammars (C03): short inputs only, forests grow fast
-                if w.len() > (if prop == "C03" { 10 } else { 30 }) {
+                if w.len() > (if prop == "C03" { 7 } else { 30 }) {
                     continue;
                 }
                 if rng.chance(0.4) && !w.is_empty() {
